@@ -8,7 +8,7 @@ import hashlib, json, multiprocessing as mp, os, random, shutil, sys, time, trac
 from . import tlc
 
 VERIF = tlc.VERIF
-EVID = os.path.join(VERIF, "evidence")
+EVID = os.environ.get("VERIF_EVIDENCE_DIR") or os.path.join(VERIF, "evidence")
 REPLAY = os.path.join(EVID, "replay")
 KNOWN = os.path.join(VERIF, "known_findings.json")
 
